@@ -133,6 +133,12 @@ CLAIMED.update({
          LEDGER_NOTE + " Thresholds are located per sampled transaction (2-3 limit kinds each), not for every transaction.", "5 C49"),
 })
 
+CLAIMED.update({
+ "C08": ("exploration", "deterministic simulation with fault injection: seeded histories in which the owner keeps replacing the rule protecting a resource's mint (the role's own rule or the owner-role fallback) with generated rule trees, while three parties attempt the call after generated auth-zone programs (account proofs by amount / ids, bucket proofs, popped / kept / dropped proofs, dropped signature proofs, extra signers), with injected system errors and restarts; reference evaluator of the documented rule semantics over a model of the auth zone",
+         "The protected call succeeds iff the rule in force is satisfied by what is in the caller's auth zone at that moment (require, amount-of = one proof of at least the amount, count-of, all-of, any-of, nested any-of / all-of, allow-all, deny-all, signature badges), and a refusal is reported as Unauthorized; the owner's own rule replacements are checked against the same evaluator.",
+         LEDGER_NOTE + " Only method authorization of a native resource manager (role rule + owner fallback); function auth, the global-caller rule, nested component auth zones and explicit assert_access_rule are not generated.", "5 C08"),
+})
+
 PURE = "pure function of one input value: no schedule, clock, I/O, fault or history for a simulator to own (DESIGN section 6)"
 NOT_APPLICABLE = {
  "C16": "key mapping is a pure bijection on keys; " + PURE,
